@@ -642,3 +642,17 @@ func (fc *FuncCtx) EqConstEdges(same func(e ast.Expr) bool, k int64) []Edge {
 	}
 	return out
 }
+
+// IsCopyOf reports whether e is the variable target or a variable that, where e is evaluated,
+// holds a plain copy of it (a helper's result handed back through an assignment).
+func (fc *FuncCtx) IsCopyOf(e ast.Expr, target types.Object) bool {
+	o := objOf(fc.Info(), e)
+	if o == nil || target == nil {
+		return false
+	}
+	if o == target {
+		return true
+	}
+	at := fc.G.VertexOf(e)
+	return at >= 0 && copyOfVar(fc, at, o, target, 0)
+}
